@@ -57,7 +57,7 @@ def check(run):
                 got = len(elected & S)
                 if got < k:
                     key = 'solid-coalition-underrepresented'
-                    if rule == 'warren' and any(e.tag == 'iterate' and '(stable)' in e.msg for e in run.events):
+                    if rule == 'warren' and any(e.tag == 'iterate' and '(stable' in e.msg.lower() for e in run.events):
                         # the Warren iteration stopped in a "stable state" although the surplus had not converged, then excluded
                         # a candidate "within the surplus" of the lowest
                         key = 'warren-premature-stable-state'
